@@ -2,8 +2,16 @@
 # offline setup: nothing to build; syntax-check every spec and make sure TLC and the repo's python are usable
 set -e
 cd "$(dirname "$0")"
-for f in spec/engine/*.tla spec/trace/*.tla; do
-  ( cd "$(dirname "$f")" && d=$(mktemp -d) && cp /verif/spec/*/*.tla "$d"/ && cd "$d" && tla-sany "$(basename "$f")" >/dev/null 2>&1 || { echo "SANY failed: $f"; exit 1; }; rm -rf "$d" )
+root=$(pwd)
+d=$(mktemp -d)
+cp "$root"/spec/*/*.tla "$d"/
+for f in spec/engine/*.tla spec/trace/*.tla spec/rules/*.tla spec/algebra/*.tla; do
+  # (tla-sany exits 0 even when it reports errors: look at what it says)
+  out=$(cd "$d" && tla-sany "$(basename "$f")" 2>&1) || true
+  if echo "$out" | grep -q "Semantic errors\|Could not\|Parse Error\|Fatal errors\|\*\*\* Errors"; then
+    echo "SANY failed: $f"; echo "$out" | tail -5; rm -rf "$d"; exit 1
+  fi
 done
+rm -rf "$d"
 PYTHONPATH=/repo PYTHONDONTWRITEBYTECODE=1 /venv/bin/python -c "import autograd, numpy; print('autograd from', autograd.__file__)"
 echo setup ok
